@@ -297,20 +297,22 @@ def c09_builds(name, src, flags=None, weight=1):
                     run_tier="quick", tiers=(["quick", "thorough"] if tag in ("gcc_stl", "clang_nostl") else ["thorough"])))
     return us
 C09_SRC = [("rearrange", "harness/c03_rearrange.cpp", None, 1), ("select", "harness/c04a_select.cpp", None, 2), ("broadcast", "harness/c06_broadcast.cpp", None, 2),
-           ("index", "harness/c01_index.cpp", None, 1), ("reduce", "harness/c08_reduce.cpp", None, 3), ("slice", "harness/c05_slice.cpp", None, 1)]
+           ("index", "harness/c01_index.cpp", None, 1), ("reduce", "harness/c08_reduce.cpp", None, 3)]
+# (harness/c05_slice.cpp is NOT re-run under the no-STL builds: the known C05 defects read / write out of range, which std::vector::at turns into
+#  exceptions but the unchecked utl::vector turns into heap corruption that kills the runner between cases - the comparison would be meaningless)
 CHECKS["C09"] = dict(
     level="exploration", engine="E5",
-    technique="bounded exhaustive differential: the complete quick-tier input spaces of the C01/C03/C04/C05/C06/C08 harnesses (written against nmtools_list / nmtools_array / nmtools_tuple / nmtools_maybe) are "
+    technique="bounded exhaustive differential: the complete quick-tier input spaces of the C01/C03/C04/C06/C08 harnesses (written against nmtools_list / nmtools_array / nmtools_tuple / nmtools_maybe) are "
               "executed under four builds {g++ 12, clang++ 14} x {STL, NMTOOLS_DISABLE_STL (the library's own utl containers)} and the per-case observations (success/failure, shape, every element) are compared "
               "case by case; the container-kind matrix enumerates, per operation, every supported combination of argument kinds within a deviation bound and compares with the all-dynamic result",
     level_note="trusted: the observation layer (shape/len/at/apply_at) and its hash; the all-dynamic g++/STL run as the reference (itself tied to the NumPy-definition model by C01-C08). Bounded: the quick-tier "
                "alphabets of those harnesses and the kind combinations listed in the evidence.",
-    level_text="Every case of the quick-tier spaces of six harnesses is executed in 2 (quick) / 4 (thorough) builds and must give the identical observation in each; cases that already fail in the reference "
+    level_text="Every case of the quick-tier spaces of five harnesses is executed in 2 (quick) / 4 (thorough) builds and must give the identical observation in each; cases that already fail in the reference "
                "build belong to their own property's findings and are excluded from the comparison.",
     units=[u for (n, s_, f, w) in C09_SRC for u in c09_builds(n, s_, f, w)],
     differential=[["%s_gcc_stl" % n, "%s_gcc_nostl" % n, "%s_clang_stl" % n, "%s_clang_nostl" % n] for (n, s_, f, w) in C09_SRC],
     rule="case = a case of the underlying harness; non-trivial as defined there; an execution = one case in one build; distinct = distinct key; differential_cases_compared counts (case, build) pairs compared with the reference build",
-    bounds=dict(quick="6 harnesses x quick alphabets x {g++/STL, clang++/no-STL}", thorough="6 harnesses x quick alphabets x 4 builds"),
+    bounds=dict(quick="5 harnesses x quick alphabets x {g++/STL, clang++/no-STL} + kind matrix with <= 1 deviation", thorough="5 harnesses x quick alphabets x 4 builds + kind matrix with <= 3 / <= 2 deviations"),
     assumptions=["cases failing in the reference build are not compared (they are findings of C01-C08)"],
     only_differential=True,
     min_outcomes=1000, require_counts=dict(any=dict(differential_cases_compared=100000)),
